@@ -296,6 +296,70 @@ pub fn check_match(code: u16, shape: u8, class: u16) -> Vec<Finding> {
     }
 }
 
+/// Records whose RDATA is the typed OPT variant (built under each class; parsed ones that the
+/// parser leaves in a section: an OPT among the answers, a second OPT among the additional
+/// records): class matching is about the class the record reports, whatever its type.
+pub fn check_match_opt() -> (Vec<Finding>, u64) {
+    use simple_dns::rdata::{OPTCode, RData, OPT};
+    use simple_dns::{Name, ResourceRecord, CLASS};
+    let case = json!({"kind": "match-opt"});
+    let r = guarded(|| {
+        let mut bad: Vec<(String, String)> = Vec::new();
+        let mut n = 0u64;
+        let mut judge = |how: &str, r: &ResourceRecord, bad: &mut Vec<(String, String)>| {
+            let own = class_num(r.class);
+            for qc in [1u16, 2, 3, 4, 254, 255] {
+                let exp = qc == 255 || qc == own;
+                let got = r.match_qclass(lib_qclass(qc).unwrap());
+                if got != exp {
+                    bad.push((format!("match_qclass-opt-{}", how), format!("{} OPT record reporting class {} vs qclass {}: {} expected {}", how, own, qc, got, exp)));
+                }
+            }
+            if !r.match_qtype(QTYPE::ANY) || !r.match_qtype(QTYPE::TYPE(TYPE::OPT)) || r.match_qtype(QTYPE::TYPE(TYPE::A)) {
+                bad.push((format!("match_qtype-opt-{}", how), format!("{} OPT record: ANY {}, TYPE(OPT) {}, TYPE(A) {}", how, r.match_qtype(QTYPE::ANY), r.match_qtype(QTYPE::TYPE(TYPE::OPT)), r.match_qtype(QTYPE::TYPE(TYPE::A)))));
+            }
+            if u16::from(r.rdata.type_code()) != 41 {
+                bad.push((format!("type_code-opt-{}", how), format!("{:?}", r.rdata.type_code())));
+            }
+        };
+        for class in [CLASS::IN, CLASS::CS, CLASS::CH, CLASS::HS, CLASS::NONE] {
+            for with_code in [false, true] {
+                let opt = OPT { opt_codes: if with_code { vec![OPTCode { code: 10, data: std::borrow::Cow::Owned(vec![1, 2, 3, 4, 5, 6, 7, 8]) }] } else { vec![] }, udp_packet_size: 1232, version: 0 };
+                let rec = ResourceRecord::new(Name::new_unchecked("o.example"), class, 0, RData::OPT(opt));
+                n += 1;
+                judge("built", &rec, &mut bad);
+                let owned = rec.clone().into_owned();
+                judge("built-owned", &owned, &mut bad);
+            }
+        }
+        // parsed: OPT in the answer section; two OPT records in the additional section
+        let opt_rr: [u8; 11] = [0, 0, 41, 0x04, 0xd0, 0, 0, 0, 0, 0, 0];
+        let mut m1 = vec![0x18, 0x19, 0x84, 0, 0, 0, 0, 1, 0, 0, 0, 0];
+        m1.extend_from_slice(&opt_rr);
+        let mut m2 = vec![0x18, 0x1a, 0x84, 0, 0, 0, 0, 0, 0, 0, 0, 2];
+        m2.extend_from_slice(&opt_rr);
+        m2.extend_from_slice(&[0, 0, 41, 0x02, 0x00, 0, 0, 0, 0, 0, 4, 0, 3, 0, 0]);
+        for (how, m) in [("parsed-answer", &m1), ("parsed-second-additional", &m2)] {
+            if let Ok(p) = Packet::parse(m) {
+                for r in p.answers.iter().chain(p.additional_records.iter()) {
+                    if matches!(r.rdata, RData::OPT(_)) {
+                        n += 1;
+                        judge(how, r, &mut bad);
+                    }
+                }
+            }
+        }
+        (bad, n)
+    });
+    match r {
+        Err(p) => (vec![finding(format!("C18|match-opt|{}", p.sig()), format!("{:?}", p), case)], 0),
+        Ok((bad, n)) => {
+            let mut seen = std::collections::BTreeSet::new();
+            (bad.into_iter().filter(|(t, _)| seen.insert(t.clone())).map(|(t, d)| finding(format!("C18|match|{}", t), d, case.clone())).collect(), n)
+        }
+    }
+}
+
 fn parsed_bodies(code: u16) -> Vec<Vec<u8>> {
     let mut bodies: Vec<Vec<u8>> = Vec::new();
     for n in 0..=10usize {
@@ -477,12 +541,23 @@ pub fn run(ctx: &Ctx) {
         });
         ctx.space("parsed records: every 16-bit CLASS field x every opcode 0..=15 x query / response x 5 shapes (TTL 0 or 5, empty or 4-byte RDATA, types A / ANY(255) / TXT / SOA, each record section): an accepted record reports the wire CLASS and cache-flush bit", total.load(std::sync::atomic::Ordering::Relaxed), "complete");
     }
+    {
+        let (f, n) = check_match_opt();
+        let mut t = Tally::default();
+        t.evals += n;
+        t.nontrivial += n;
+        t.outcome("match");
+        ctx.merge(t);
+        ctx.violations(f);
+        ctx.space("typed OPT records (built under 5 classes with and without an option, their owned copies; parsed ones left in the answer section or as a second OPT of the additional section) x 6 question classes x {ANY, TYPE(OPT), TYPE(A)}", n, "complete");
+    }
     ctx.sample(json!({"kind": "match", "code": 10, "shape": 0, "class": 1}));
     ctx.sample(json!({"kind": "match", "code": 8, "shape": 1, "class": 3}));
 }
 
 pub fn replay(case: &Value) -> Vec<Finding> {
     match case["kind"].as_str().unwrap_or("") {
+        "match-opt" => check_match_opt().0,
         "code" => check_code(case["code"].as_u64().unwrap_or(0) as u16),
         "parsed" => check_parsed_in(
             case["code"].as_u64().unwrap_or(0) as u16,
